@@ -115,13 +115,14 @@ bool ThreadPool::initialize(ssize_t min_thread_num, ssize_t max_thread_num)
         std::lock_guard<std::mutex> lg(d_->lock);
         d_->min_thread_num = min_thread_num;
         d_->max_thread_num = max_thread_num;
+        //! must be cleared, under the lock, before any worker can test it
+        d_->all_threads_stop_flag = false;
 
         for (ssize_t i = 0; i < min_thread_num; ++i)
             if (!createWorker())
                 return false;
     }
 
-    d_->all_threads_stop_flag = false;
     d_->is_ready = true;
 
     return true;
@@ -260,10 +261,12 @@ void ThreadPool::cleanup()
             }
         );
         d_->threads_cabinet.clear();
+
+        //! set under the lock: workers test it in their wait predicate with the lock held
+        d_->all_threads_stop_flag = true;
     }
 
-    TBOX_VERIF_POINT("ThreadPool.cleanup_before_stop_flag");
-    d_->all_threads_stop_flag = true;
+    TBOX_VERIF_POINT("ThreadPool.cleanup_before_notify");
     d_->cond_var.notify_all();
 
     //! 等待所有的线程退出
